@@ -727,6 +727,12 @@ func (ctx Ctx) callExpr(s *ast.CallExpr) coq.Expr {
 	if f, ok := s.Fun.(*ast.Ident); ok && builtinCallNames[f.Name] && !ctx.goBuiltin(f) {
 		ctx.unsupported(s, "call of a user-defined %s, which has the name of a builtin", f.Name)
 	}
+	if len(s.Args) == 1 {
+		if tup, ok := ctx.typeOf(s.Args[0]).(*types.Tuple); ok && tup.Len() > 1 {
+			// f(g()) would pass one tuple to a curried function
+			ctx.unsupported(s, "call with the multiple results of another call as its arguments")
+		}
+	}
 	if isIdent(s.Fun, "make") {
 		return ctx.makeExpr(s.Args)
 	}
@@ -1251,7 +1257,7 @@ func (ctx Ctx) exprSpecial(e ast.Expr, isSpecial bool) coq.Expr {
 	case *ast.UnaryExpr:
 		return ctx.unaryExpr(e)
 	case *ast.ParenExpr:
-		return ctx.expr(e.X)
+		return ctx.exprSpecial(e.X, isSpecial)
 	case *ast.StarExpr:
 		return ctx.derefExpr(e.X)
 	case *ast.TypeAssertExpr:
@@ -1751,6 +1757,10 @@ func (ctx Ctx) assignFromTo(s ast.Node,
 		if info.throughPointer {
 			structExpr = ctx.expr(lhs.X)
 		} else {
+			if base, isIdent := lhs.X.(*ast.Ident); isIdent && ok && !ctx.isPtrWrapped(base) {
+				// a := bound struct is a value, not a location
+				ctx.unsupported(s, "assignment to a field of %s, which is not assignable (declare it with var)", base.Name)
+			}
 			structExpr = ctx.refExpr(lhs.X)
 		}
 		if ok {
@@ -1786,7 +1796,8 @@ func (ctx Ctx) multipleAssignStmt(s *ast.AssignStmt) coq.Binding {
 	if len(s.Rhs) > 1 {
 		ctx.unsupported(s, "multiple assignments on right hand side")
 	}
-	rhs := ctx.expr(s.Rhs[0])
+	// v, ok = m[k] needs the pair, like the defining form
+	rhs := ctx.exprSpecial(s.Rhs[0], len(s.Lhs) == 2)
 
 	if s.Tok != token.ASSIGN {
 		// This should be invalid Go syntax anyway
